@@ -494,22 +494,298 @@ func LowerBound0(isV func(ssa.Value) bool) EdgeMatcher {
 // EdgeCut decides whether the edge b -> b.Succs[i] is removed.
 type EdgeCut func(b *ssa.BasicBlock, i int) bool
 
-// CutEstablishing removes every If edge that establishes m.
+// Fact is a comparison known to hold (Holds=true) or not to hold on an edge.
+type Fact struct {
+	Cmp   Cmp
+	Holds bool
+}
+
+// condAlts describes what is known when boolean value v is `want`, as a list
+// of alternatives (one of them holds), each a conjunction of facts.  Besides
+// plain comparisons it understands the value form of short-circuit operators
+// that go/ssa emits when a && b / a || b is used as a value (e.g. a case
+// expression of a tag-less switch): phi [false…, b].
+func condAlts(v ssa.Value, want bool, depth int) [][]Fact {
+	if depth > 6 {
+		return [][]Fact{nil}
+	}
+	for {
+		if u, ok := v.(*ssa.UnOp); ok && u.Op == token.NOT {
+			want = !want
+			v = u.X
+			continue
+		}
+		break
+	}
+	if phi, ok := v.(*ssa.Phi); ok && isBoolType(phi.Type()) {
+		var nonConst []int
+		allSame, constVal := true, false
+		first := true
+		for i, e := range phi.Edges {
+			if bv, isConst := ConstBool(e); isConst {
+				if first {
+					constVal, first = bv, false
+				} else if bv != constVal {
+					allSame = false
+				}
+			} else {
+				nonConst = append(nonConst, i)
+			}
+		}
+		if !(allSame && !first && len(nonConst) == 1) {
+			return [][]Fact{nil}
+		}
+		blk := phi.Block()
+		// what taking the short-circuit edge i / not taking it means
+		shortFacts := func(i int, taken bool) [][]Fact {
+			p := blk.Preds[i]
+			if len(p.Instrs) == 0 {
+				return [][]Fact{nil}
+			}
+			ifi, ok := p.Instrs[len(p.Instrs)-1].(*ssa.If)
+			if !ok {
+				return [][]Fact{nil}
+			}
+			k := 0
+			if len(p.Succs) == 2 && p.Succs[1] == blk {
+				k = 1
+			}
+			// the edge to the phi block is taken when cond == (k==0)
+			val := k == 0
+			if !taken {
+				val = !val
+			}
+			return condAlts(ifi.Cond, val, depth+1)
+		}
+		conj := func(x, y [][]Fact) [][]Fact { // cross product of alternatives
+			var out [][]Fact
+			for _, a := range x {
+				for _, b := range y {
+					out = append(out, append(append([]Fact{}, a...), b...))
+				}
+			}
+			return out
+		}
+		if want != constVal {
+			// came through the non-constant edge: that operand is `want`, and no
+			// short-circuit edge was taken (for those whose block dominates it)
+			out := condAlts(phi.Edges[nonConst[0]], want, depth+1)
+			for i, e := range phi.Edges {
+				if _, isConst := ConstBool(e); !isConst {
+					continue
+				}
+				if !blk.Preds[i].Dominates(blk.Preds[nonConst[0]]) {
+					continue
+				}
+				out = conj(out, shortFacts(i, false))
+			}
+			return out
+		}
+		// the value equals the short-circuit constant: either one of the
+		// short-circuit edges was taken, or the last operand has that value
+		var out [][]Fact
+		for i, e := range phi.Edges {
+			if _, isConst := ConstBool(e); isConst {
+				out = append(out, shortFacts(i, true)...)
+			}
+		}
+		out = append(out, condAlts(phi.Edges[nonConst[0]], want, depth+1)...)
+		return out
+	}
+	// a boolean computed by a helper function of the repository: use what its
+	// returns imply (predicate helpers such as validType(t), lookups returning
+	// (value, ok) …)
+	if call, idx := CallResult(v); call != nil && isBoolType(v.Type()) {
+		if alts, ok := helperAlts(call, idx, want, depth+1); ok {
+			cmp, neg := CondCmp(v)
+			holds := want
+			if neg {
+				holds = !holds
+			}
+			return conjAlts([][]Fact{{{cmp, holds}}}, alts)
+		}
+	}
+	cmp, neg := CondCmp(v)
+	holds := want
+	if neg {
+		holds = !holds
+	}
+	return [][]Fact{{{cmp, holds}}}
+}
+
+// NonZero builds a matcher for "unsigned v != 0": v != 0, v >= k (k >= 1), v > k (k >= 0).
+func NonZero(isV func(ssa.Value) bool) EdgeMatcher {
+	return func(c Cmp) (bool, bool) {
+		x, y, op := c.X, c.Y, c.Op
+		if !isV(x) {
+			if !isV(y) {
+				return false, false
+			}
+			x, y = y, x
+			switch op { // mirror
+			case token.LSS:
+				op = token.GTR
+			case token.LEQ:
+				op = token.GEQ
+			case token.GTR:
+				op = token.LSS
+			case token.GEQ:
+				op = token.LEQ
+			}
+		}
+		k, ok := ConstInt(y)
+		if !ok {
+			return false, false
+		}
+		switch op {
+		case token.NEQ:
+			return k == 0, false
+		case token.EQL:
+			return false, k == 0
+		case token.GEQ:
+			return k >= 1, false
+		case token.GTR:
+			return k >= 0, false
+		case token.LSS: // v < k : false edge means v >= k
+			return false, k >= 1
+		case token.LEQ:
+			return false, k >= 0
+		}
+		return false, false
+	}
+}
+
+func conjAlts(x, y [][]Fact) [][]Fact {
+	var out [][]Fact
+	for _, a := range x {
+		for _, b := range y {
+			out = append(out, append(append([]Fact{}, a...), b...))
+		}
+	}
+	return out
+}
+
+// pathAlts: conditions necessarily true when block b executes (edges on its
+// dominator chain that are the only way into their target).
+func pathAlts(b *ssa.BasicBlock, depth int) [][]Fact {
+	out := [][]Fact{nil}
+	for cur := b; cur != nil && cur.Idom() != nil; cur = cur.Idom() {
+		p := cur.Idom()
+		if len(cur.Preds) != 1 || cur.Preds[0] != p || len(p.Instrs) == 0 {
+			continue
+		}
+		ifi, ok := p.Instrs[len(p.Instrs)-1].(*ssa.If)
+		if !ok || p.Succs[0] == p.Succs[1] {
+			continue
+		}
+		k := 0
+		if p.Succs[1] == cur {
+			k = 1
+		}
+		out = conjAlts(out, condAlts(ifi.Cond, k == 0, depth+1))
+		if len(out) > 16 {
+			return [][]Fact{nil}
+		}
+	}
+	return out
+}
+
+// helperAlts summarises a call to a repository function whose result idx is a
+// boolean: what holds when that result is `want`.
+func helperAlts(call *ssa.Call, idx int, want bool, depth int) ([][]Fact, bool) {
+	if depth > 5 {
+		return nil, false
+	}
+	h := call.Call.StaticCallee()
+	if h == nil || len(h.Blocks) == 0 || len(h.Blocks) > 60 || h.Pkg == nil || !strings.HasPrefix(h.Pkg.Pkg.Path(), Module) {
+		return nil, false
+	}
+	if idx < 0 {
+		idx = 0
+	}
+	args := call.Call.Args
+	subst := func(v ssa.Value) ssa.Value {
+		if p, ok := Canon(v).(*ssa.Parameter); ok && p.Parent() == h {
+			for i, hp := range h.Params {
+				if hp == p && i < len(args) {
+					return args[i]
+				}
+			}
+		}
+		return v
+	}
+	var out [][]Fact
+	for _, r := range Returns(h) {
+		if idx >= len(r.Results) {
+			continue
+		}
+		// skip the synthetic recover block
+		if len(r.Block().Preds) == 0 && r.Block() != h.Blocks[0] {
+			continue
+		}
+		rv := RetVal(r, idx)
+		path := pathAlts(r.Block(), depth)
+		if bv, isConst := ConstBool(rv); isConst {
+			if bv != want {
+				continue
+			}
+			out = append(out, path...)
+			continue
+		}
+		out = append(out, conjAlts(path, condAlts(rv, want, depth+1))...)
+	}
+	if len(out) == 0 || len(out) > 16 {
+		return nil, false
+	}
+	for i := range out {
+		for j := range out[i] {
+			out[i][j].Cmp.X = subst(out[i][j].Cmp.X)
+			out[i][j].Cmp.Y = subst(out[i][j].Cmp.Y)
+		}
+	}
+	return out, true
+}
+
+func isBoolType(t types.Type) bool {
+	b, ok := t.Underlying().(*types.Basic)
+	return ok && b.Info()&types.IsBoolean != 0
+}
+
+// EdgeAlts returns what is known on the edge b -> b.Succs[i] (alternatives of
+// conjunctions of facts); nil if the edge is not a conditional one.
+func EdgeAlts(b *ssa.BasicBlock, i int) [][]Fact {
+	if len(b.Instrs) == 0 {
+		return nil
+	}
+	ifi, ok := b.Instrs[len(b.Instrs)-1].(*ssa.If)
+	if !ok {
+		return nil
+	}
+	return condAlts(ifi.Cond, i == 0, 0)
+}
+
+// CutEstablishing removes every If edge that establishes m: on that edge, in
+// every alternative, some known comparison makes m hold.
 func CutEstablishing(m EdgeMatcher) EdgeCut {
 	return func(b *ssa.BasicBlock, i int) bool {
-		if len(b.Instrs) == 0 {
+		alts := EdgeAlts(b, i)
+		if len(alts) == 0 {
 			return false
 		}
-		ifi, ok := b.Instrs[len(b.Instrs)-1].(*ssa.If)
-		if !ok {
-			return false
+		for _, alt := range alts {
+			ok := false
+			for _, f := range alt {
+				t, fl := m(f.Cmp)
+				if (f.Holds && t) || (!f.Holds && fl) {
+					ok = true
+					break
+				}
+			}
+			if !ok {
+				return false
+			}
 		}
-		cmp, neg := CondCmp(ifi.Cond)
-		t, f := m(cmp)
-		if neg {
-			t, f = f, t
-		}
-		return (i == 0 && t) || (i == 1 && f)
+		return true
 	}
 }
 
@@ -933,4 +1209,28 @@ func RetVals(r *ssa.Return) []ssa.Value {
 		out[i] = RetVal(r, i)
 	}
 	return out
+}
+
+// ValueAlts exposes condAlts: what is known when boolean value v equals want.
+func ValueAlts(v ssa.Value, want bool) [][]Fact { return condAlts(v, want, 0) }
+
+// AltsEstablish reports whether, in every alternative, some fact makes m hold.
+func AltsEstablish(alts [][]Fact, m EdgeMatcher) bool {
+	if len(alts) == 0 {
+		return false
+	}
+	for _, alt := range alts {
+		ok := false
+		for _, f := range alt {
+			t, fl := m(f.Cmp)
+			if (f.Holds && t) || (!f.Holds && fl) {
+				ok = true
+				break
+			}
+		}
+		if !ok {
+			return false
+		}
+	}
+	return true
 }
